@@ -1515,9 +1515,14 @@ def chainexec(F, R):
                             masks.append((i, f.eval_const(jy)))
                 R.anchor('chain-stop:' + be)
                 if not masks: why.append('no bit test on the result of the first candidate decides whether the next one is tried')
-                for i, m in masks:
-                    if m is None or (m & 5) != 5:
-                        why.append('the test %s at %s does not treat %s as consumed: the next candidate (a lower-priority or outer row) is tried although this one %s' % (f.expr(i), f.at(i), 'a deferred event' if m is not None and not (m & 4) else 'a taken transition' if m is not None and not (m & 1) else 'the result bits', 'deferred the event' if m is not None and not (m & 4) else 'was taken'))
+                else:
+                    # the tests may be written as one mask or one test per bit: what counts is the union of the tested bits
+                    known = [m for i, m in masks if m is not None]
+                    m = 0
+                    for x in known: m |= x
+                    if not known or (m & 5) != 5:
+                        i = masks[0][0]
+                        why.append('the test(s) %s at %s do not treat %s as consumed: the next candidate (a lower-priority or outer row) is tried although this one %s' % (' , '.join(f.expr(j) for j, _m in masks), f.at(i), 'a deferred event' if known and not (m & 4) else 'a taken transition' if known and not (m & 1) else 'the result bits', 'deferred the event' if known and not (m & 4) else 'was taken'))
             order = f.linear_nodes()
             R.ob('C01.chain', not why, {'func': f.q, 'candidates': len(L)})
             if why: R.find('C01.chain', f, 'order', 'conflict chain of %d candidates: %s (table priority is lost)' % (len(L), '; '.join(why)))
